@@ -17,6 +17,7 @@ type VerifC37State struct {
 	NeedsFlush   bool // sc.needsFrameFlush
 	NeedAck      bool // sc.needToSendSettingsAck
 	ClientMaxStr uint32
+	InGoAway     bool // sc.inGoAway
 	Closed       bool // serve loop has returned
 }
 
@@ -46,7 +47,7 @@ func (c *VerifC37Conn) VerifC37Sample() VerifC37State {
 		res <- VerifC37State{
 			Queued: sc.queuedControlFrames, ZeroLen: len(sc.writeSched.zero.s), StreamQ: n,
 			Writing: sc.writingFrame, NeedsFlush: sc.needsFrameFlush, NeedAck: sc.needToSendSettingsAck,
-			ClientMaxStr: sc.clientMaxStreams,
+			ClientMaxStr: sc.clientMaxStreams, InGoAway: sc.inGoAway,
 		}
 	}
 	select {
